@@ -171,6 +171,11 @@ def shard_main(pid, specfile, outfile):
     level = ambient.install(spec)
     if level is not None:
         ctx.feature('ambient_verbosity_' + level)
+    if spec.get('pyopt'):
+        if sys.flags.optimize:
+            ctx.feature('ambient_python_O_shards')
+        else:
+            ctx.inconclusive_because('pyopt shard is not running with assertions disabled')
     try:
         if spec.get('__replay__'):
             mod.replay(unjson(spec['case']), ctx)
@@ -294,6 +299,13 @@ def run_check(pid, tier, seed):
     setup_repo_path()
     mod = load_check(pid)
     specs = mod.plan(tier, seed)
+    kinds = getattr(mod, 'PYOPT_KINDS', None)
+    if kinds is not None:
+        # one more shard, a copy of an ordinary one, under `python -O` (assertions compiled out): no property depends on that
+        for s in specs:
+            if s.get('kind') in kinds and not s.get('pyopt'):
+                specs.append(dict(s, pyopt=True, ambient_copy=True))
+                break
     for i, s in enumerate(specs):
         s.setdefault('name', 'shard%d' % i)
         s.setdefault('seed', derive(seed, pid, tier, i))
@@ -318,6 +330,8 @@ def run_check(pid, tier, seed):
         for lvl in ('normal', 'debug', 'quiet'):
             if merged['features'].get('ambient_verbosity_' + lvl, 0) < 1:
                 missed.append('no shard ran at %s verbosity' % lvl)
+        if any(s.get('ambient_copy') for s in specs) and merged['features'].get('ambient_python_O_shards', 0) < 1:
+            missed.append('no shard ran under python -O')
     if n_unlisted:
         verdict = 'violated'
     elif merged['inconclusive'] or missed:
